@@ -92,6 +92,12 @@ def layouts(tier, seed, salt):
         ovs=[None, 0])
     add(16, 16, 0, [{"w": 32, "acc": "rw", "addr": 0xfffe}, {"w": 16, "acc": "rw", "addr": 0x8000}, {"w": 1, "acc": "w", "addr": 0x1234}],
         ovs=[None, 1])
+    # a tightly packed 3-bit space whose shadow is doubled up to the WHOLE address space by a small sharing limit
+    # while an unaligned two-word register still shares a chunk with its neighbour
+    add(8, 3, 0, [{"w": 8, "acc": "r"}, {"w": 16, "acc": "rw"}, {"w": 8, "acc": "r"}, {"w": 5, "acc": "r"}], ovs=[1, 0, 2])
+    add(8, 4, 0, [{"w": 8, "acc": "rw", "addr": 0}, {"w": 8, "acc": "r", "addr": 1}, {"w": 8, "acc": "rw", "addr": 2},
+                  {"w": 16, "acc": "rw", "addr": 3}, {"w": 8, "acc": "r", "addr": 5}, {"w": 24, "acc": "rw", "addr": 9},
+                  {"w": 8, "acc": "rw", "addr": 12}], ovs=[1])
     if max_chunks >= 6:
         add(8, 6, 0, [{"w": 48, "acc": "rw", "addr": 5}, {"w": 40, "acc": "rw", "addr": 13}, {"w": 8, "acc": "rw", "addr": 4}])
     want = 90 if tier == "quick" else 1000
